@@ -17,6 +17,7 @@ RULE = (
     "mesh (all cell families, distorted / curved), the displacement state (det F >= 0.3), objective materials from "
     "the registry, load values, densities, scales and selections. Oracle: closed-form resultants and explicit sums. "
     "Non-trivial: max|f| >= 1e-3 of the stiffness scale (a stress-free state is trivial) and >= 2 cells."
+    ' Added later: mass of axisymmetric bodies, density argument vs stored density, pressure through the keyword of assemble.vector and states handed over in foreign containers, point loads on the second field (apply_on=1).'
 )
 ASSUMPTIONS = [
     "MINI containers are excluded from the moment clause (the bubble unknown has no position)",
